@@ -90,21 +90,22 @@ Definition encode_bytes (v : list Z) : list Z :=
     [c_firstLongStringByte] ++ le_enc 3 l ++ v ++ zeros (nearest_padded_go currentLen - currentLen).
 Definition encode_string := encode_bytes.
 
-(* decodeBytes: (n, v, err) *)
+(* decodeBytes: (n, v, err). The four length conditions are generated from the source
+   (Gen/TlConsts.v: *_bytes_go; Proof.TlPrim.string_conditions_agree ties decodeString's to them). *)
 Definition decode_bytes_raw (b : list Z) : res tl_err (Z * list Z) :=
   if len b =? 0 then Err EEOF else
   do b0 <- go_index b 0;
   if b0 =? c_firstLongStringByte then
-    if len b <? 4 then Err EEOF else
+    if long_header_short_bytes_go (len b) then Err EEOF else
     do b1 <- go_index b 1; do b2 <- go_index b 2; do b3 <- go_index b 3;
     let strLen := le_dec [b1; b2; b3] in      (* uint32(b[1]) | uint32(b[2])<<8 | uint32(b[3])<<16 *)
-    if len b <? strLen + 4 then Err EEOF else
+    if long_payload_short_bytes_go (len b) strLen then Err EEOF else
     do v <- go_slice b 4 (strLen + 4);
     Ok (nearest_padded_go (strLen + 4), v)
   else
     let strLen := b0 in
-    if len b <? strLen + 1 then Err EEOF else
-    if strLen >? c_maxSmallStringLength then Err EInvalidLength else
+    if short_payload_short_bytes_go (len b) strLen then Err EEOF else
+    if short_len_invalid_bytes_go strLen then Err EInvalidLength else
     do v <- go_slice b 1 (strLen + 1);
     Ok (nearest_padded_go (strLen + 1), v).
 
